@@ -7,6 +7,7 @@ import (
 	tbtree "github.com/tidwall/btree"
 
 	. "github.com/cube2222/octosql/execution"
+	"github.com/cube2222/octosql/helpers/verifhook"
 	"github.com/cube2222/octosql/octosql"
 )
 
@@ -141,6 +142,7 @@ receiveLoop:
 	for {
 		select {
 		case msg, ok := <-leftMessages:
+			verifhook.JoinEvent(ctx, "left", verifJoinKind(ok, msg.metadata, msg.err))
 			if !ok {
 				leftDone = true
 				break receiveLoop
@@ -187,6 +189,7 @@ receiveLoop:
 			// TODO: Add backpressure
 
 		case msg, ok := <-rightMessages:
+			verifhook.JoinEvent(ctx, "right", verifJoinKind(ok, msg.metadata, msg.err))
 			if !ok {
 				leftDone = false
 				break receiveLoop
@@ -256,6 +259,7 @@ receiveLoop:
 	}
 
 	for msg := range openChannel {
+		verifhook.JoinEvent(ctx, verifJoinSide(!leftDone), verifJoinKind(true, msg.metadata, msg.err))
 		if msg.err != nil {
 			return msg.err
 		}
@@ -281,6 +285,7 @@ receiveLoop:
 		}
 	}
 
+	verifhook.JoinEvent(ctx, verifJoinSide(!leftDone), "close")
 	if err := processRecordsUpTo(ctx, WatermarkMaxValue); err != nil {
 		return err
 	}
